@@ -5,6 +5,8 @@ package dyn
 // the fields of ErrorResponse and the name of the collection metadata record - lives in res_v2.go / res_v1.go.
 
 import (
+	"strings"
+	"errors"
 	"context"
 	"fmt"
 	"reflect"
@@ -621,6 +623,14 @@ func NewMock(s *schema.Schema, r *schema.Resource, script Script) reflect.Value 
 			}
 			o := script(inv)
 			if o.Err != nil && o.Err.Panic != "" {
+				// three kinds of panic: a string, an error value ("error:<text>"), a runtime error ("nil-deref")
+				switch {
+				case o.Err.Panic == "nil-deref":
+					var np *Invocation
+					_ = np.Call.Method // nil pointer dereference (runtime.Error)
+				case strings.HasPrefix(o.Err.Panic, "error:"):
+					panic(errors.New(strings.TrimPrefix(o.Err.Panic, "error:")))
+				}
 				panic(o.Err.Panic)
 			}
 			if o.StatusOverride != 0 {
